@@ -238,7 +238,7 @@ def run(chk, ctx):
                 oks.add((lab[0] if lab else None, f.get("name"), f.get("source")))
         N = "elem(dig::visual_elements(DOC, array('Testcase')))"
         SRC = "ToString::to_string(try(Node::text(try(Node::first_element_child(try(dig::attrib(%s, 'Testdata')))))))" % N
-        want = {(("Some",), "ToString::to_string(try(Node::text(some!(dig::attrib(%s, 'Label')))))" % N, SRC), (("None",), "From::from('(unnamed)')", SRC)}
+        want = {(("Some",), "ToString::to_string(try(Node::text(some!(dig::attrib(%s, 'Label')))))" % N, SRC), (("None",), "ToString::to_string('(unnamed)')", SRC)}
         chk.require(oks == want, "CONST", "CONST:testcase:label-and-source-verbatim", "name = Label text or \"(unnamed)\"; source = Testdata/testData/dataString text().to_string() (no trim)", "test descriptions built as %s" % sorted(oks, key=str))
         chk.require({"testData", "dataString"} <= consts, "CONST", "CONST:testcase:tags", "testData / dataString", "test data tags tested: %s" % sorted(consts))
     at = P.body("dig::attrib")
